@@ -453,6 +453,54 @@ func genC18(repo string) (map[string]string, error) {
 		return nil, fmt.Errorf("builder.iterate not found")
 	}
 
+	// ---- 5. go/ir/task.go: every function with its statements (hook calls removed). The task-graph model is a
+	// hand transcription of exactly this text; any edit must be matched by the model (obligation task_shape).
+	var taskFuncs []string
+	for _, sf := range files {
+		if sf.name != "task.go" {
+			continue
+		}
+		for _, d := range sf.f.Decls {
+			fd, ok := d.(*ast.FuncDecl)
+			if !ok || fd.Body == nil {
+				continue
+			}
+			c18StripHooks(fd.Body)
+			var stmts []string
+			for _, st := range fd.Body.List {
+				stmts = append(stmts, coqString(c18PrintNoComments(fset, st)))
+			}
+			taskFuncs = append(taskFuncs, fmt.Sprintf("(%s, %s)", coqString(fd.Name.Name), coqList(stmts)))
+		}
+		// the fields of struct task
+		for _, d := range sf.f.Decls {
+			gd, ok := d.(*ast.GenDecl)
+			if !ok {
+				continue
+			}
+			for _, sp := range gd.Specs {
+				ts, ok := sp.(*ast.TypeSpec)
+				if !ok || ts.Name.Name != "task" {
+					continue
+				}
+				st, ok := ts.Type.(*ast.StructType)
+				if !ok {
+					return nil, fmt.Errorf("task.go: task is no longer a struct")
+				}
+				var flds []string
+				for _, f := range st.Fields.List {
+					for _, n := range f.Names {
+						flds = append(flds, coqString(n.Name+" "+c18PrintNoComments(fset, f.Type)))
+					}
+				}
+				taskFuncs = append(taskFuncs, fmt.Sprintf("(%s, %s)", coqString("type task"), coqList(flds)))
+			}
+		}
+	}
+	if len(taskFuncs) == 0 {
+		return nil, fmt.Errorf("go/ir/task.go not found or empty")
+	}
+
 	// ---- output
 	var b strings.Builder
 	b.WriteString("From Coq Require Import List String.\nImport ListNotations.\nRequire Import Verif.Model.C18_Types.\nOpen Scope string_scope.\n\n")
@@ -503,9 +551,59 @@ func genC18(repo string) (map[string]string, error) {
 	for _, s := range progBuildCalls {
 		pb = append(pb, coqString(s))
 	}
+	b.WriteString("(* go/ir/task.go: struct task and every function, statement by statement, verif hook calls removed *)\n")
+	fmt.Fprintf(&b, "Definition gen_task_source : list (string * list string) :=\n  [ %s ].\n\n", strings.Join(taskFuncs, ";\n    "))
 	b.WriteString("(* (b *builder) buildFunction: call statements in order *)\n")
 	fmt.Fprintf(&b, "Definition gen_buildfunction_calls : list string := %s.\n", coqList(pb))
 	return map[string]string{"C18_LockTraces.v": b.String()}, nil
+}
+
+// c18StripHooks removes calls to verif* functions (statements `verifX(...)` and `v := verifX(...)`) in place.
+func c18StripHooks(n ast.Node) {
+	isHook := func(e ast.Expr) bool {
+		call, ok := e.(*ast.CallExpr)
+		if !ok {
+			return false
+		}
+		id, ok := call.Fun.(*ast.Ident)
+		return ok && strings.HasPrefix(id.Name, "verif")
+	}
+	filter := func(list []ast.Stmt) []ast.Stmt {
+		var out []ast.Stmt
+		for _, st := range list {
+			switch s := st.(type) {
+			case *ast.ExprStmt:
+				if isHook(s.X) {
+					continue
+				}
+			case *ast.AssignStmt:
+				if len(s.Rhs) == 1 && isHook(s.Rhs[0]) {
+					continue
+				}
+			}
+			out = append(out, st)
+		}
+		return out
+	}
+	ast.Inspect(n, func(n ast.Node) bool {
+		switch b := n.(type) {
+		case *ast.BlockStmt:
+			b.List = filter(b.List)
+		case *ast.CaseClause:
+			b.Body = filter(b.Body)
+		case *ast.CommClause:
+			b.Body = filter(b.Body)
+		}
+		return true
+	})
+}
+
+// c18PrintNoComments prints a node on one line; comments inside are dropped (the node is printed detached
+// from the file's comment list).
+func c18PrintNoComments(fset *token.FileSet, n ast.Node) string {
+	var buf bytes.Buffer
+	printer.Fprint(&buf, fset, n)
+	return strings.Join(strings.Fields(buf.String()), " ")
 }
 
 type c18Extractor struct {
